@@ -51,7 +51,7 @@ def gen_cases(ctx):
                             td["unroll-variadic"] = u
                     cases.append({"kind": "catalogue", "inpkg": inpkg, "genseed": ctx.seed * 31 + inpkg, "idx": ch, "template": t, "formatter": "goimports",
                                   "placement": "inpkg-test" if inpkg else "outpkg", "td": td, "gomod": "plain", "srckind": "ordinary",
-                                  "drvseed": rng.randrange(1, 1 << 20), "gomaxprocs": [2, 8, 16][ci % 3]})
+                                  "drvseed": rng.randrange(1, 1 << 20), "gomaxprocs": [2, 8, 16][ci % 3], "golang": [None, None, "1.21", None, "1.18"][ci % 5]})
                     ci += 1
     # fixed focus cases: every variadic method form under every option that changes how the variadic arguments are carried
     for inpkg in (True, False):
@@ -61,10 +61,11 @@ def gen_cases(ctx):
         if not vidx:
             continue
         for t, tds in (("testify", [{"unroll-variadic": True}, {"unroll-variadic": False}, {}]), ("matryer", [{"stub-impl": True, "with-resets": True}, {}])):
-            for td in tds:
+            for n, td in enumerate(tds):
+                # the `go` directive of the module the mocks are linked in decides language semantics (per-iteration loop variables since 1.22, built-ins since 1.21)
                 cases.append({"kind": "catalogue", "inpkg": inpkg, "genseed": ctx.seed * 31 + inpkg, "idx": vidx, "template": t, "formatter": "goimports",
                               "placement": "inpkg-test" if inpkg else "outpkg", "td": td, "gomod": "plain", "srckind": "ordinary",
-                              "drvseed": rng.randrange(1, 1 << 20), "gomaxprocs": 8, "all_methods": True})
+                              "drvseed": rng.randrange(1, 1 << 20), "gomaxprocs": 8, "all_methods": True, "golang": ["1.21", "1.20", None][(n + inpkg) % 3]})
     return cases
 
 
@@ -111,7 +112,7 @@ def eval_case(ctx, case):
            "GORACE": "halt_on_error=0 log_path=%s" % os.path.join(root, "race.log")}
     r, findings, summary, races = drvrun.run_tests(root, info, "^TestDrvConcurrent$", env, race=True, timeout=2400)
     td = case.get("td") or {}
-    tags = ["template=" + case["template"], "placement=" + case["placement"], "gomaxprocs=%d" % case["gomaxprocs"]] + ["td." + k for k in td]
+    tags = ["template=" + case["template"], "placement=" + case["placement"], "gomaxprocs=%d" % case["gomaxprocs"]] + ["td." + k for k in td] + (["go-directive=" + case["golang"]] if case.get("golang") else [])
     if r.timed_out:
         return Verdict.inconclusive("watchdog")
     gen_races, other_races = parse_race_logs(root)
